@@ -88,9 +88,11 @@ func judgeC14(c *Ctx, sc *Scenario) *Violation {
 	if ra.Failed != rb.Failed {
 		return &Violation{"C14/" + p.Relation + ":exit-status-differs", fmt.Sprintf("%s\nA: failed=%v %s\nB: failed=%v %s", desc, ra.Failed, ra.Err, rb.Failed, rb.Err)}
 	}
-	if p.Relation != "invalid-config-without-option" && ra.Failed {
-		// the relations below are about successful runs
-		return &Violation{"C14/" + p.Relation + ":run-failed", fmt.Sprintf("%s\nA: %s\nB: %s", desc, ra.Err, rb.Err)}
+	if ra.Failed {
+		// both runs fail alike (e.g. the generated refgroup configuration is one
+		// git-sizer must reject): the relation holds trivially
+		c.Stats.Probe("both-runs-failed-alike (not judged further)")
+		return nil
 	}
 	if !bytes.Equal(ra.Stdout, rb.Stdout) {
 		return &Violation{"C14/" + p.Relation + ":stdout-differs", fmt.Sprintf("%s\nA:\n%s\nB:\n%s", desc, firstBytes(ra.Stdout, 700), firstBytes(rb.Stdout, 700))}
@@ -245,6 +247,26 @@ func checkC14(c *Ctx, rt *rapid.T) {
 				a, b = []string{"--exclude-regexp", re}, []string{"--exclude", "/" + re + "/"}
 			}
 			p = c14Params{Relation: "equivalent-spellings", A: c14Run{Args: a}, B: c14Run{Args: b}}
+		} else if g.Bool("configuredgroup") {
+			// --refgroup G == --include @G also for configured groups: nested ones,
+			// groups under a parent that has rules of its own, rule-less parents
+			specs := GenGroups(g, w, 4, false)
+			if len(specs) == 0 {
+				specs = []GroupSpec{{Symbol: "tags.rel", Rules: []GroupRule{{Include: true, Regexp: true, Pattern: ".*/release-.*|.*main.*"}}}}
+			}
+			w.Config.Local += RenderGroups(specs, &g)
+			gmod := NewGroupModel()
+			for _, sp := range specs {
+				gmod.ensure(sp.Symbol)
+			}
+			var syms []string
+			for _, sym := range gmod.Order {
+				if sym != "" {
+					syms = append(syms, sym)
+				}
+			}
+			grp := syms[g.Pick(len(syms), "cfggrp")]
+			p = c14Params{Relation: "equivalent-spellings", A: c14Run{Args: []string{"--refgroup", grp}}, B: c14Run{Args: []string{"--include", "@" + grp}}}
 		} else {
 			grp := g.PickStr([]string{"branches", "tags", "remotes", "notes", "stash", "pulls", "changes"}, "grp")
 			p = c14Params{Relation: "equivalent-spellings", A: c14Run{Args: []string{"--refgroup", grp}}, B: c14Run{Args: []string{"--include", "@" + grp}}}
